@@ -615,6 +615,9 @@ func histCheck(prop string, cfg histCfg, gen histGen, faultShare int, rule strin
 		out.Stats.Inc("histories:fault-free")
 		out.Stats.Inc("store:" + store.KeyName(sc.Store))
 		out.Stats.Add("operations", len(sc.Ops))
+		for _, o := range sc.Ops {
+			out.Stats.Inc("op:" + o.Kind)
+		}
 		for _, f := range res.findings {
 			if f.key == "harness" {
 				out.HarnessErr = f.detail
